@@ -40,6 +40,12 @@ def run(chk):
     r = tv("Trace_Frame", "Trace_Frame.cfg", t, shards=10, tag="C03")
     chk.add_tv("frame_new", r)
     report_rejects(chk, r, sig, lambda ev, d: "MessageFrame::new disagrees with the frame specification on a %d-byte slice (reported %s)" % (len(ev["bytes"]), ev.get("out")))
+    t2 = record("frame_new", chk.path("fn-relchk.ndjson"), profile="relchk", n=2000 if q else 20000, seed=chk.seed + 13, all_lengths=0)
+    hang_violation(chk, t2, "MessageFrame::new [overflow-checks]")
+    r2 = tv("Trace_Frame", "Trace_Frame.cfg", t2, shards=10, tag="C03-relchk")
+    chk.add_tv("frame_new[relchk]", r2)
+    report_rejects(chk, r2, lambda ev, d: "[overflow-checks] " + sig(ev, d),
+                   lambda ev, d: "[overflow-checks] MessageFrame::new disagrees with the frame specification on a %d-byte slice (reported %s)" % (len(ev.get("bytes", [])), ev.get("out")))
     nontriv = set()
     outs = {}
     for ln, o in r["lines"]:
